@@ -18,7 +18,8 @@ func init() {
 			"(O) the dedup LRU is confined to the polling goroutine (only its own methods use it; not captured, stored or passed on); (N) its window is a constant ≥ 1000; " +
 			"(F) one worker forwards once: every call site on the chain worker→ReadRequest→callback→forwardRequest→handler.ServeHTTP is unique and outside any loop, and the fetch retry loop contains only the fetch; " +
 			"(P) the stand-alone proxy offers each ID at exactly one send site (not in a loop, the newID value) on an unbuffered channel and every received ID is appended to the reply that is returned. " +
-			"Not decided: retries inside httputil.ReverseProxy / http.Transport, LRU eviction order.",
+			"Not decided: retries inside httputil.ReverseProxy / http.Transport, LRU eviction order." +
+			" (P, second part) the proxy's http.Server arms no read or write deadline: a deadline fixed when the header was read lets a long-waiting poll take an ID it can no longer write.",
 		Assumptions: []string{"groupcache lru.Cache keeps the most recent N keys", "httputil.ReverseProxy does not replay non-idempotent requests"},
 		Run:         runC04,
 	})
